@@ -12,8 +12,10 @@ from fractions import Fraction as F
 from .rng import Rng, tok
 from .sigs import SIG, SIZES
 
-VERIF = "/verif"
-REPO = "/repo"
+# CGV_VERIF / CGV_REPO: used only by tools/seedpar.py to run scratch copies of the framework against scratch
+# worktrees in parallel; the registered checks always run /verif against /repo
+VERIF = os.environ.get("CGV_VERIF", "/verif")
+REPO = os.environ.get("CGV_REPO", "/repo")
 LEAN = f"{VERIF}/lean"
 HARNESS = f"{VERIF}/harness"
 WORK = f"{VERIF}/work"
@@ -150,6 +152,11 @@ def repo_state():
 def build_harness():
     """(re)build the harness against /repo's current working tree."""
     with Lock("cargo"):
+        if REPO != "/repo":
+            if VERIF == "/verif":
+                raise MachineryError("CGV_REPO needs a scratch copy of the framework (CGV_VERIF)")
+            t = open(f"{HARNESS}/Cargo.toml").read().replace('path = "/repo"', f'path = "{REPO}"')
+            open(f"{HARNESS}/Cargo.toml", "w").write(t)
         try:
             shutil.copyfile(f"{REPO}/Cargo.lock", f"{HARNESS}/Cargo.lock")
         except OSError:
